@@ -114,6 +114,7 @@ structure Peer where
   extHS : Bool := false
   extMeta : Bool := false              -- extension handshake advertised ut_metadata
   extSize : Nat := 0
+  pexOn : Bool := false                -- pe.PEX ≠ nil
   deriving Repr, Inhabited
 
 /-- A running piece download (`pieceDownloaders[pe]`). -/
@@ -148,6 +149,7 @@ structure WriteJob where
 structure St where
   cfg : Cfg
   info : Bool := true
+  infoAtAdd : Bool := true             -- the metadata was known when the torrent object was created
   errC : Bool := false                 -- t.errC ≠ nil
   stopAnn : Bool := false              -- t.stoppedEventAnnouncer ≠ nil
   allocator : Bool := false
@@ -667,13 +669,14 @@ def runWorkers : Nat → M → M
       | none => m
 
 /-- Extension handshake (`ExtensionHandshakeMessage` branch of handlePeerMessage). -/
-def handleExtHandshake (m : M) (k : Nat) (hasMeta : Bool) (size : Nat) : M :=
+def handleExtHandshake (m : M) (k : Nat) (hasMeta : Bool) (size : Nat) (hasPex : Bool := false) : M :=
   match m.1.findPeer k with
   | none => m
   | some p =>
     if p.extHS then m
     else
-      let m := onSt m (·.updPeer k fun p => { p with extHS := true, extMeta := hasMeta, extSize := size })
+      let startPex := m.1.cfg.pex && hasPex && m.1.info && !m.1.cfg.isPrivate
+      let m := onSt m (·.updPeer k fun p => { p with extHS := true, extMeta := hasMeta, extSize := size, pexOn := startPex })
       if hasMeta && !m.1.info then onSt m fun s => { s with mayStartI := true } else m
 
 def blockSizeOf (size j : Nat) : Nat :=
